@@ -24,7 +24,17 @@ func drawC07(t *rapid.T) *dScenario {
 		k.Sched.MaxNodes, k.MinNodes, k.FillerPct, k.BigPodPct = 8, 3, 45, 8
 		k.MidWaitPct, k.MidWaitBlockers = 75, true
 	}
-	return drawDisrupt(t, k)
+	s := drawDisrupt(t, k)
+	if dpct(t, 12, "renominationProfile") {
+		// a node is nominated for pending pods twice, the second time inside the window of the first; the disruption
+		// pass then runs after the first window has passed but inside the second
+		target := rapid.IntRange(0, 7).Draw(t, "renominate_target")
+		a := rapid.SampledFrom([]int{5, 9, 10, 11}).Draw(t, "renominate_gap")
+		b := rapid.SampledFrom([]int{9, 10, 11, 20, 21}).Draw(t, "renominate_then")
+		nominate := func() dStep { return dStep{Kind: "mutate", Mut: &dMut{Kind: "nominate", Target: target}} }
+		s.Steps = append([]dStep{nominate(), {Kind: "advance", Sec: a}, nominate(), {Kind: "advance", Sec: b}, {Kind: "disrupt"}}, s.Steps...)
+	}
+	return s
 }
 
 // judgeC07 checks every candidate of every command against the independent eligibility predicate.
